@@ -126,11 +126,13 @@ def run_shard(desc):
         n_expected = ng
         if kind.startswith("zone"):
             zsel = (hkls[:, 0] + hkls[:, 1] + hkls[:, 2] == 0) if kind == "zone111" else (hkls[:, 0] + 2 * hkls[:, 1] == 0)
-            if zsel.sum() < 6:
+            if zsel.sum() < 6 or ng > 3:
+                # (with many grains and a minimum of a handful of peaks, orientations through a few peaks of different grains are
+                # legitimately reported, and nothing ties their refined cell to the supplied one)
                 continue
             Rz = O.rotation_from_axis_angle(*ROT_TABLE[(ng + shift) % len(ROT_TABLE)])
             gvs.append(np.dot(np.dot(Rz, B), hkls[zsel].T).T)
-            minpks = max(3, int(zsel.sum()) // 2)
+            minpks = int(zsel.sum()) - 1             # the zone grain is just reportable
         if kind == "offsets":
             # deterministic "noise": a fixed lattice of small offsets in hkl space (well inside hkl_tol)
             for gi, (g, R) in enumerate(zip(gvs, rots)):
